@@ -41,7 +41,7 @@ theorem verifyDeal_fresh_state (g : G) (dealer : G) (vs : List G) (d : Deal F G)
 theorem pe_fresh (g : G) (v : Verifier F G) (e : EncDeal F G) (rnd : Nat)
     (hv : v.agg = none) (hidx : v.index < v.vs.length) :
     (∃ err, processEncryptedDeal g v e rnd = (v, .error err)) ∨
-    (∃ d r a, decryptDeal g v e = .ok d ∧ processEncryptedDeal g v e rnd = ({ v with agg := some a }, .ok r) ∧
+    (∃ d r a, decryptDeal g v e = .ok d ∧ processEncryptedDeal g v e rnd = ({ v with agg := some a, approved := r.status }, .ok r) ∧
       r.index = v.index ∧ r.sid = Sid.h v.dealer v.vs d.commits d.t ∧
       r.sig = .sign v.long r.sid v.index r.status rnd ∧
       (r.status = true ↔ Consistent g v.dealer v.vs d) ∧
@@ -185,6 +185,14 @@ theorem unsafeSet_frame (v : Verifier F G) (idx : Nat) :
   · dsimp only
     rcases addResponse a _ with _ | _ <;> simp
 
+theorem unsafeSet_approved (v : Verifier F G) (idx : Nat) :
+    (v.unsafeSetResponse idx true).approved = v.approved := by
+  unfold Verifier.unsafeSetResponse
+  rcases v.agg with _ | a
+  · simp
+  · dsimp only
+    rcases addResponse a _ with _ | _ <;> simp
+
 /-! ### `ProcessDeal` preserves the invariant -/
 
 theorem goodA_of_fresh (g : G) (own : Nat) (long : F) (L : List G) (dealer : G) (j : Nat)
@@ -318,9 +326,9 @@ theorem processDeal_good0 (g : G) (d : Gen F G) (dd : DkgDeal F G) (hd : GoodGen
               · exact h3
               · rw [h4, hvv, hvi]
               · exact h7
-            set w := ({ ver with agg := some a } : Verifier F G).unsafeSetResponse dd.index true with hw
-            have hwf := unsafeSet_frame ({ ver with agg := some a } : Verifier F G) dd.index
-            rcases unsafeSet_agg ({ ver with agg := some a } : Verifier F G) dd.index a rfl with hu | ⟨a', hu, hlt, hnn, ha'⟩
+            set w := ({ ver with agg := some a, approved := r.status } : Verifier F G).unsafeSetResponse dd.index true with hw
+            have hwf := unsafeSet_frame ({ ver with agg := some a, approved := r.status } : Verifier F G) dd.index
+            rcases unsafeSet_agg ({ ver with agg := some a, approved := r.status } : Verifier F G) dd.index a rfl with hu | ⟨a', hu, hlt, hnn, ha'⟩
             · exact key w (by rw [hw, hwf.1]; exact hvd) (by rw [hw, hwf.2.1]; exact hvv)
                 (by rw [hw, hwf.2.2.1]; exact hvl) (by rw [hw, hwf.2.2.2]; exact hvi)
                 (by intro a2 ha2; rw [hw, hu] at ha2; injection ha2 with ha2; subst ha2; exact hga)
